@@ -258,7 +258,7 @@ def _holds(ins, attr, new):
     return v is new or (isinstance(v, list) and any(x is new for x in v))
 
 
-@family("IR.bookkeeping", props=["C02", "C14", "C05"],
+@family("IR.bookkeeping", props=["C02", "C14", "C05", "C06", "C09"],
         functions=[L + "::BasicBlock.UpdateUses", L + "::Function.UpdateUses", L + "::Function.ReplaceUses", L + "::BasicBlock.GetPreviousInstruction", L + "::Function.RegisterValue",
                    L + "::Function.CreateConstant", L + "::Function.CreateBasicBlock", L + "::BasicBlock.AddInstruction", L + "::VariableAccessInstruction.WithVariable",
                    L + "::BasicBlock._Traverse", L + "::BasicBlock.Replace", L + "::BasicBlock.ReplaceUses", L + "::BasicBlock.__Replace"],
@@ -342,6 +342,18 @@ def ir_bookkeeping(R):
                 if ('float', 1.0) not in [(t, v) for t, v in consts if isinstance(v, float)]: print('REPLAY-CONFIRMED')
                 """))
     R.check("IR.constant.typed[0 vs 0.0]", L + "::Function.CreateConstant", isinstance(c0f.Type, ir.FloatType) and c0f is not c0, detail="0 and 0.0 share one constant")
+    # a constant has THE TYPE IT WAS ASKED FOR, whatever was created before: int 7 and uint 7 are two constants (the WebAssembly backend picks
+    # signed / unsigned opcodes from the operand type; the typing of unsigned arithmetic relies on it)
+    for order in ("int-first", "uint-first"):
+        f2, _bb2 = fresh_function()
+        U = ir.IntegerType(unsigned=True)
+        if order == "int-first":
+            ci, cu = f2.CreateConstant(I, 7), f2.CreateConstant(U, 7)
+        else:
+            cu, ci = f2.CreateConstant(U, 7), f2.CreateConstant(I, 7)
+        ok = isinstance(ci.Type, ir.IntegerType) and not ci.Type.Unsigned and isinstance(cu.Type, ir.IntegerType) and cu.Type.Unsigned and ci is not cu
+        R.check(f"IR.constant.typed[int 7 vs uint 7,{order}]", L + "::Function.CreateConstant", ok,
+                detail=f"CreateConstant(int, 7) has type {ci.Type}, CreateConstant(uint, 7) has type {cu.Type} ({'one shared object' if ci is cu else 'two objects'})")
     R.check("IR.constant.listed", L + "::Function.Constants", sorted(map(id, f.Constants)) == sorted(map(id, {id(c): c for c in (c1, c2, c3, c0, c0f)}.values())), detail="Constants does not list every created constant once")
     # WithVariable
     st = val(bb)
